@@ -1,17 +1,18 @@
 #!/usr/bin/env bash
 # sens/run_mutation.sh <name>   — applies props/c19_arc/sens/<name>.diff to a scratch worktree (prefix bC),
-# builds C19 against it through ./check, runs the binary with the proposed known findings standing in,
-# prints the violations that are NOT explained by them, and removes the worktree.
+# builds C19 against it through ./check, runs the binary (all layers, quick tier) with a copy of /verif/known_findings.json,
+# prints the violations that are NOT known findings, and removes the worktree.
 set -u
 name=$1; seed=${2:-1}
 cd /verif
 d=$(tools/scratch.sh new bC-$name)
 ( cd "$d" && git apply /verif/props/c19_arc/sens/$name.diff ) || { echo "patch failed"; tools/scratch.sh rm bC-$name; exit 2; }
+mkdir -p /verif/.build/c19-mut-root /verif/.build/c19tmp; cp /verif/known_findings.json /verif/.build/c19-mut-root/known_findings.json
 alt="/verif/.build/alt-$(echo "$d" | md5sum | cut -c1-8)"
 VERIF_REPO=$d VERIF_LAYERS=quirk VERIF_SCALE=0.02 ./check C19 >/dev/null 2>&1
 ls "$alt"/C19*.bin >/dev/null 2>&1 || { echo "build failed"; cat "$alt/logs/C19.build.log" | tail -20; tools/scratch.sh rm bC-$name; exit 2; }
 bin=$(ls "$alt"/C19*.bin | head -1)
-props/c19_arc/sens/with_proposed.sh "$bin" "$seed" > /verif/.build/c19tmp/mut-$name.txt 2>&1
+VERIF_ROOT=/verif/.build/c19-mut-root VERIF_SEED=$seed VERIF_TIER=quick VERIF_EVIDENCE=/verif/.build/c19-mut-root/evidence.json VERIF_REPLAY_DIR=/verif/.build/c19-mut-root/replays "$bin" > /verif/.build/c19tmp/mut-$name.txt 2>&1; echo "exit=$?" >> /verif/.build/c19tmp/mut-$name.txt
 echo "mutation $name: $(grep -c '^VIOLATION' /verif/.build/c19tmp/mut-$name.txt) new violation signatures; $(grep 'exit=' /verif/.build/c19tmp/mut-$name.txt)"
 grep -A2 '^VIOLATION' /verif/.build/c19tmp/mut-$name.txt | grep 'signature' | sed -E 's/\b[iuf](8|16|32|64)\b/T/g' | sort | uniq -c | sort -rn | head -8
 tools/scratch.sh rm bC-$name
